@@ -29,7 +29,6 @@ def _scalar(c):
 
 class Series:
     _vc_domain = "series"
-    __array_priority__ = 2000
     __slots__ = ("var", "val", "c")
 
     def __init__(self, var, val, coeffs):
